@@ -240,13 +240,72 @@ pub fn gen_c04(tier: &str, seed: u64, out: &str) -> Value {
             t.emit(area_event(id)); n += 1; t.cut();
         } } }
     }
+    // continuity scan of the face -> sphere map along rays from every face centre: second differences at geometric steps
+    // flag kinks and tears (sector borders, the face edge, switch points of closed-form shortcuts); the cells that
+    // contain a flagged point are then measured like any other cell -- the scan only chooses WHERE to look
+    let mut flagged: Vec<(u8, f64, f64)> = vec![];
+    {
+        use a5::coordinate_systems::Face;
+        use a5::projections::dodecahedron::DodecahedronProjection;
+        let mut proj = DodecahedronProjection::new().unwrap();
+        let nrays = if tier == "thorough" { 40 } else { 10 };
+        for origin in 0..12u8 {
+            for k in 0..nrays {
+                let ang = (k as f64 + 0.37) * std::f64::consts::TAU / nrays as f64;
+                let (ca, sa) = (ang.cos(), ang.sin());
+                let f = |proj: &mut DodecahedronProjection, rho: f64| -> [f64; 3] {
+                    let s = proj.inverse(Face::new(rho * ca, rho * sa), origin).unwrap();
+                    let (t, p) = (s.theta().get(), s.phi().get());
+                    [p.sin() * t.cos(), p.sin() * t.sin(), p.cos()]
+                };
+                let mut rho = 1e-6;
+                let mut last_flag = 0.0;
+                while rho < 0.72 {
+                    let h = 1e-3 * rho;
+                    let (a, b, c) = (f(&mut proj, rho - h), f(&mut proj, rho), f(&mut proj, rho + h));
+                    let d2 = ((a[0] - 2.0 * b[0] + c[0]).powi(2) + (a[1] - 2.0 * b[1] + c[1]).powi(2) + (a[2] - 2.0 * b[2] + c[2]).powi(2)).sqrt();
+                    if d2 > 3.0 * h * h + 1e-14 && rho > 1.05 * last_flag {
+                        // localise the anomaly: halve the step, keep the centre with the largest second difference
+                        let (mut rc, mut hc) = (rho, h);
+                        for _ in 0..40 {
+                            hc *= 0.5;
+                            if hc < 1e-13 { break; }
+                            let mut best = (0.0, rc);
+                            for cand in [rc - hc, rc, rc + hc] {
+                                let (a, b, c) = (f(&mut proj, cand - hc), f(&mut proj, cand), f(&mut proj, cand + hc));
+                                let dd = ((a[0] - 2.0 * b[0] + c[0]).powi(2) + (a[1] - 2.0 * b[1] + c[1]).powi(2) + (a[2] - 2.0 * b[2] + c[2]).powi(2)).sqrt();
+                                if dd > best.0 { best = (dd, cand); }
+                            }
+                            rc = best.1;
+                        }
+                        flagged.push((origin, rc * ca, rc * sa));
+                        last_flag = rho;
+                    }
+                    rho += h;
+                }
+            }
+        }
+        let mut proj2 = DodecahedronProjection::new().unwrap();
+        let mut n_flag_cells = 0u64;
+        for (origin, x, y) in &flagged {
+            let sp = proj2.inverse(Face::new(*x, *y), *origin).unwrap();
+            let ll = a5::core::coordinate_transforms::to_lon_lat(sp);
+            for r in (if tier == "thorough" { 6 } else { 12 })..=29 {
+                if tier != "thorough" && r % 2 == 1 && r < 24 { continue; }
+                if let Ok(id) = a5::lonlat_to_cell(ll, r) { t.emit(area_event(id)); n += 1; n_flag_cells += 1; }
+            }
+            t.cut();
+        }
+        let _ = n_flag_cells;
+    }
     // cells at poles, face vertices, seams: found by lookup
     for r in 0..=29 {
         for p in special_points() { if let Ok(id) = a5::lonlat_to_cell(p, r) { t.emit(area_event(id)); n += 1; } }
         t.cut();
     }
     t.finish();
-    json!({"files": t.files, "events": t.events, "cells_measured": n, "exhaustive_to_res": exr, "samples": [area_event(random_cell(&mut rng, 7))]})
+    json!({"files": t.files, "events": t.events, "cells_measured": n, "exhaustive_to_res": exr, "continuity_scan_flagged_points": flagged.len(),
+           "samples": [area_event(random_cell(&mut rng, 7))]})
 }
 
 /// poles, antimeridian, the 12 face centres, the 20 face vertices and 30 edge midpoints (from the res-0 rings)
@@ -501,8 +560,81 @@ pub fn gen_c01(tier: &str, seed: u64, out: &str, mc: Option<&str>) -> Value {
         n_hug += interior_events(&mut t, "interior1", id, &mut rng, &[1e-13, 1e-10, 1e-7, 1e-4, 1e-2, 0.3]);
         t.cut();
     }
+    // mass probing guided by the branch hook: very many cheap lookups of edge-hugging and uniform points at res 8..29;
+    // only the HARD ones (answered by a late probe of the spiral, or by the fallback) are classified and recorded --
+    // exactly the cases on which the search's only assumption (A5Lookup: the true cell is among the estimates) is thin
+    let nmass: u64 = if tier == "thorough" { 12_000_000 } else { 1_200_000 };
+    let nthreads = 12u64;
+    let mut handles = vec![];
+    for th in 0..nthreads {
+        let mut r2 = Rng::new(seed ^ 0xC01 ^ (th + 1) * 0x9E37);
+        let quota = nmass / nthreads;
+        handles.push(std::thread::spawn(move || {
+            let mut hard: Vec<(u8, i32, f64, f64)> = vec![];
+            let mut hist = [0u64; 28];
+            let mut done = 0u64;
+            while done < quota {
+                let res = 8 + r2.below(22) as i32;
+                let base = random_point(&mut r2);
+                let cell = match a5::lonlat_to_cell(base, res) { Ok(c) => c, Err(_) => continue };
+                let ring = match ring_ll(cell, 1, false) { Some(r) if r.len() >= 3 => r, _ => continue };
+                let centre = match a5::cell_to_lonlat(cell) { Ok(c) => c, Err(_) => continue };
+                for _ in 0..48 {
+                    let i = r2.below(ring.len() as u64) as usize;
+                    let e = towards(ring[i], ring[(i + 1) % ring.len()], r2.f64());
+                    let depth = [1e-3, 1e-2, 0.05, 0.2, -1e-3, -1e-2, -0.05, 0.6][r2.below(8) as usize];
+                    let p = towards(e, centre, depth);
+                    if a5::lonlat_to_cell(p, res).is_err() { continue; }
+                    let info = a5::verif::lookup_info();
+                    let key = if info.branch == 4 { 27 } else { info.sample.min(26) };
+                    hist[key as usize] += 1;
+                    if key >= 9 { hard.push((key, res, p.longitude(), p.latitude())); }
+                    done += 1;
+                }
+            }
+            (hard, hist, done)
+        }));
+    }
+    let mut hard_all: Vec<(u8, i32, f64, f64)> = vec![];
+    let mut hist_all = [0u64; 28];
+    let mut n_mass = 0u64;
+    for h in handles { let (hd, hs, d) = h.join().unwrap(); hard_all.extend(hd); for k in 0..28 { hist_all[k] += hs[k]; } n_mass += d; }
+    hard_all.sort_by(|a, b| b.0.cmp(&a.0));
+    // second stage: hard points cluster in slivers -- explore the neighbourhood of the hardest ones for still later
+    // probes / fallbacks (local search on the hook's probe index)
+    let seeds_pts: Vec<(u8, i32, f64, f64)> = hard_all.iter().take(if tier == "thorough" { 3000 } else { 400 }).cloned().collect();
+    let mut r3 = Rng::new(seed ^ 0x5EED);
+    let mut n_refine = 0u64;
+    for (k0, res, lon, lat) in seeds_pts {
+        let sz = cell_size(res) / DEG;
+        let coslat = (lat * DEG).cos().max(1e-3);
+        let (mut best, mut bl, mut bt) = (k0, lon, lat);
+        for step in 0..120 {
+            let scale = sz * [0.3, 0.1, 0.03, 0.01][step % 4];
+            let (l2, t2) = (bl + (r3.f64() - 0.5) * scale / coslat, (bt + (r3.f64() - 0.5) * scale).clamp(-90.0, 90.0));
+            if a5::lonlat_to_cell(LonLat::new(l2, t2), res).is_err() { continue; }
+            let info = a5::verif::lookup_info();
+            let key = if info.branch == 4 { 27 } else { info.sample.min(26) };
+            n_refine += 1;
+            hist_all[key as usize] += 1;
+            if key >= best { if key > best || step % 3 == 0 { best = key; bl = l2; bt = t2; } hard_all.push((key, res, l2, t2)); }
+        }
+    }
+    n_mass += n_refine;
+    hard_all.sort_by(|a, b| b.0.cmp(&a.0));
+    let n_hard_total = hard_all.len();
+    hard_all.truncate(if tier == "thorough" { 40000 } else { 5000 });
+    for (_, res, lon, lat) in &hard_all {
+        let e = lookup_event(LonLat::new(*lon, *lat), *res, "mass_hard");
+        branches[(e["branch"].as_u64().unwrap_or(0) as usize).min(4)] += 1;
+        t.emit(e);
+        n += 1;
+        t.cut();
+    }
     t.finish();
     json!({"files": t.files, "events": t.events, "lookups": n, "edge_hugging_points": n_hug, "branches_exact_direct_probe_fallback": branches[1..].to_vec(),
+           "mass_lookups": n_mass, "mass_hard_cases_found": n_hard_total, "mass_hard_cases_validated": hard_all.len(),
+           "mass_winning_probe_histogram_0_26_fallback": hist_all.to_vec(),
            "samples": [lookup_event(LonLat::new(-73.98, 40.75), 11, "sample")]})
 }
 
